@@ -18,7 +18,7 @@ impl Prop for C06Prop {
     fn assumptions(&self) -> Vec<String> {
         vec![
             "blank-line grouping = which gaps between tokens contain at least one blank line".into(),
-            "stream toggled: one verbatim region between two statement boundaries, byte-identical in both renderings; no asm blocks (excluded by the statement)".into(),
+            "stream toggled: one verbatim region between two statement boundaries, byte-identical in both renderings; the instruction lines of asm blocks keep their gaps in both renderings (excluded by the statement)".into(),
         ]
     }
     fn streams(&self, tier: Tier) -> Vec<Stream> {
@@ -30,7 +30,10 @@ impl Prop for C06Prop {
     }
     fn generate(&self, stream: &str, t: &mut Tape) -> Option<Case> {
         let cfg = Cfg::gen_unsaturated(t);
-        let mut w = wf::build(t, wf::fuel_for(stream), Default::default(), None, None)?;
+        // asm blocks now and then: their instruction lines have fixed gaps (excluded by the
+        // statement), but the `end;` that closes them is ordinary code
+        let opts = crate::gen::prog::Opts { asm: t.chance(1, 4), ..Default::default() };
+        let mut w = wf::build(t, wf::fuel_for(stream), opts, None, None)?;
         if stream == "toggled" {
             use crate::gen::prog::PTok;
             use crate::model::refscan::Kind;
